@@ -39,6 +39,9 @@ pub struct ChunkInfo {
     pub chunk_size_in_force: u32,
     pub restated_fmt0_continuation: bool,
     pub completes: bool,
+    /// offset of the chunk's first byte in the whole stream fed so far, and its header length
+    pub start: usize,
+    pub header_len: usize,
 }
 
 #[derive(Clone, Debug)]
@@ -267,7 +270,10 @@ impl SpecDecoder {
         s.partial.extend_from_slice(&b[pos..pos + n]);
         pos += n;
         let completes = s.partial.len() == s.len as usize;
+        let header_len = pos - n;
         self.chunks.push(ChunkInfo {
+            start: self.consumed,
+            header_len,
             fmt,
             csid,
             csid_form: form,
